@@ -28,10 +28,13 @@ Open Scope Z_scope.
 (* one case = a region with its variants (option, reported inputs, reported outputs, culprit variables);
    result per variant = (lists agree with the model, safe, reads_safe, reason code of every culprit) *)
 Definition variant := (bool * bool * list name * list name * list name)%type.
-Definition eval_variant (r : list stmt) (v : variant) : bool * bool * bool * list nat :=
+Definition eval_variant (xs : list xstmt) (arrs : list name) (v : variant) : bool * bool * bool * list nat :=
   match v with (sh, answered, ins, outs, cs) =>
-    (if answered then accs_ok sh r && io_agrees (r, sh, ins, outs) else negb (accs_ok sh r), if sh then safe_ext sh r else safe sh r, reads_safe sh r, map (reason sh r) cs) end.
-Definition eval_case (c : list stmt * list variant) := map (eval_variant (fst c)) (snd c).
+    let r := core_of xs in let nc := negb (has_call xs) in
+    (if answered then accs_ok sh r && xio_agrees (xs, sh, ins, outs) else negb (accs_ok sh r),
+     nc && (if sh then safe_ext sh r else safe sh r), nc && reads_safe sh r, map (xreason sh xs arrs) cs) end.
+Definition eval_case (c : list xstmt * list name * list variant) :=
+  match c with (xs, arrs, vs) => map (eval_variant xs arrs) vs end.
 """
 
 
@@ -194,6 +197,42 @@ class Gen12(fortgen.Gen):
         a = r.choice(sorted(self.arrays))
         return [("assign", sc, [], ("intr", "ISize", [("var", a), ("lit", 1)]))]
 
+    def call(self, env):
+        """a call to a known callee or to the opaque routine foo"""
+        r = self.r
+        one_d = [x for x in sorted(self.arrays) if len(self.arrays[x]) == 1]
+        k = r.choice(["inc_all", "rd_two", "set_one", "inc_elem", "foo", "foo"])
+        a = r.choice(one_d)
+        if k in ("inc_all", "set_one"):
+            return ("call", k, [("var", a)])
+        if k == "rd_two":
+            return ("call", k, [("var", a), ("var", r.choice(["s", "t", "m"]))])
+        if k == "inc_elem":
+            return ("call", k, [self.ref(env)])
+        args = []
+        for _ in range(r.randint(1, 3)):
+            c = r.random()
+            if c < 0.4:
+                args.append(("var", r.choice(one_d)))
+            elif c < 0.65:
+                args.append(self.ref(env))
+            elif c < 0.8:
+                args.append(("var", r.choice(fortgen.SCALARS)))
+            else:
+                args.append(("bin", "Add", self.ref(env), ("lit", 1)))
+        return ("call", "foo", args)
+
+    def call_with_partial_write(self):
+        """a partial write of an array before / after a call that receives the same array"""
+        r = self.r
+        one_d = [x for x in sorted(self.arrays) if len(self.arrays[x]) == 1]
+        a = r.choice(one_d)
+        lb, ub = self.arrays[a][0]
+        w = ("assign", a, [("lit", r.randint(lb, ub))], ("lit", r.randint(0, 5)))
+        k = r.choice(["inc_all", "rd_two", "set_one", "foo"])
+        c = ("call", k, [("var", a)] + ([("var", r.choice(["s", "t", "m"]))] if k == "rd_two" else []))
+        return [w, c] if r.random() < 0.6 else [c, w]
+
     def block(self, env, depth, in_loop, n):
         out = []
         for _ in range(n):
@@ -202,6 +241,123 @@ class Gen12(fortgen.Gen):
             else:
                 out.append(self.stmt(env, depth, in_loop))
         return out
+
+
+# ------------------------------------------------------------------ regions with calls (shared with C13)
+# Calls to subroutines of the same module with KNOWN bodies, and to an unknown routine `foo`.  PSyclone does not look
+# into the callee (every by-reference argument is READWRITE).  The harness gives a call a semantics by expansion:
+#   inc_all(a)   : every element of a is incremented            (reads and writes all of a)
+#   rd_two(a, s) : s = first element + last element of a         (reads a, writes the scalar)
+#   set_one(a)   : second element of a = 5                        (writes one element)
+#   inc_elem(a(i)): that element is incremented
+#   foo(...)     : OPAQUE non-pure routine, conservative reading: it may read and write every element of every
+#                  by-reference argument; evaluated as inc_all / inc_elem / scalar increment of each such argument.
+CALLEES = """subroutine inc_all(x)
+  integer, dimension(:), intent(inout) :: x
+  integer :: k
+  do k = lbound(x, 1), ubound(x, 1)
+    x(k) = x(k) + 1
+  end do
+end subroutine inc_all
+subroutine rd_two(x, r)
+  integer, dimension(:), intent(in) :: x
+  integer, intent(out) :: r
+  r = x(lbound(x, 1)) + x(ubound(x, 1))
+end subroutine rd_two
+subroutine set_one(x)
+  integer, dimension(:), intent(inout) :: x
+  x(lbound(x, 1) + 1) = 5
+end subroutine set_one
+subroutine inc_elem(y)
+  integer, intent(inout) :: y
+  y = y + 1
+end subroutine inc_elem
+"""
+KNOWN_CALLEES = ("inc_all", "rd_two", "set_one", "inc_elem", "foo")
+
+
+def xstmts_from_psyir(nodes):
+    from psyclone.psyir.nodes import Call, IntrinsicCall
+    out = []
+    for n in nodes:
+        if isinstance(n, Call) and not isinstance(n, IntrinsicCall):
+            if any(n.argument_names) or n.routine.name.lower() not in KNOWN_CALLEES:
+                raise mf.OutOfSubset("call " + n.routine.name)
+            out.append(("call", n.routine.name.lower(), [mf.expr_from_psyir(a) for a in n.arguments]))
+        else:
+            out.append(mf.stmt_from_psyir(n))
+    return out
+
+
+def xstmts_to_coq(xs, nm):
+    items = []
+    for s in xs:
+        if s[0] == "call":
+            items.append("(XCall [%s])" % "; ".join(mf.expr_to_coq(a, nm) for a in s[2]))
+        else:
+            items.append("(XCore %s)" % mf.stmt_to_coq(s, nm))
+    return "[" + "; ".join(items) + "]"
+
+
+def xstmts_to_fortran(xs):
+    lines = []
+    for s in xs:
+        if s[0] == "call":
+            lines.append("  call %s(%s)" % (s[1], ", ".join(mf.expr_to_fortran(a) for a in s[2])))
+        else:
+            lines += mf.stmts_to_fortran([s])
+    return lines
+
+
+def routine_text(xs, decls):
+    lines = ["module m", "contains", "subroutine sub()"]
+    for v, ty, bs in decls:
+        lines.append("  %s%s :: %s" % (ty, (", dimension(%s)" % ", ".join("%d:%d" % b for b in bs)) if bs else "", v))
+    return "\n".join(lines + xstmts_to_fortran(xs) + ["end subroutine sub"]) + "\n" + CALLEES + "end module m\n"
+
+
+def find_sub(psy):
+    from psyclone.psyir.nodes import Routine
+    return [r for r in psy.walk(Routine) if r.name.lower() == "sub"][0]
+
+
+def has_call(xs):
+    return any(s[0] == "call" for s in xs)
+
+
+def _inc(ref):
+    return ("assign", ref[1], ref[2] if ref[0] == "idx" else [], ("bin", "Add", ref, ("lit", 1)))
+
+
+def expand_calls(xs, bnds):
+    """the statements a region amounts to for array extents `bnds` (calls replaced by what the callee does)"""
+    out = []
+    for s in xs:
+        if s[0] != "call":
+            out.append(s)
+            continue
+        name, args = s[1], s[2]
+
+        def elems(a):
+            (lb, ub), = bnds[a]
+            return [("idx", a, [("lit", i)]) for i in range(lb, ub + 1)]
+        if name == "inc_all":
+            out += [_inc(e) for e in elems(args[0][1])]
+        elif name == "rd_two":
+            es = elems(args[0][1])
+            out.append(("assign", args[1][1], [], ("bin", "Add", es[0], es[-1])))
+        elif name == "set_one":
+            e = elems(args[0][1])[1]
+            out.append(("assign", e[1], e[2], ("lit", 5)))
+        elif name == "inc_elem":
+            out.append(_inc(args[0]))
+        else:   # opaque
+            for a in args:
+                if a[0] == "var" and a[1] in bnds:
+                    out += [_inc(e) for e in elems(a[1])]
+                elif a[0] in ("var", "idx"):
+                    out.append(_inc(a))
+    return out
 
 
 # ------------------------------------------------------------------ implementation side
@@ -253,7 +409,7 @@ def impl_extract(psy, path, lo, hi):
     from psyclone.psyir.transformations import ExtractTrans, TransformationError
     from psyclone.psyir.backend.fortran import FortranWriter
     c = psy.copy()
-    sched = follow(c.walk(Routine)[0], path)
+    sched = follow(find_sub(c), path)
     try:
         ExtractTrans().apply(sched.children[lo:hi])
     except TransformationError as e:
@@ -448,9 +604,9 @@ def run(ctx):
     def do_routine(prog, g, tag, stores):
         nonlocal n_refused, n_oos
         decls = g.decls()
-        txt = mf.to_fortran("sub", prog, decls)
+        txt = routine_text(prog, decls)
         psy = reader.psyir_from_source(txt)
-        routine = psy.walk(Routine)[0]
+        routine = find_sub(psy)
         allvars = [d[0] for d in decls]
         bnds = dict(g.arrays)
         nm = mf.Names(sorted(allvars))
@@ -464,11 +620,11 @@ def run(ctx):
             for lo, hi in spans:
                 nodes = sched.children[lo:hi]
                 try:
-                    region = mf.stmts_from_psyir(nodes)
+                    region = xstmts_from_psyir(nodes)
                 except mf.OutOfSubset:
                     n_oos += 1
                     continue
-                rtxt = "\n".join(mf.stmts_to_fortran(region))
+                rtxt = "\n".join(xstmts_to_fortran(region))
                 variants = [(False, impl_ctu(nodes, False))]
                 ex = impl_extract(psy, path, lo, hi)
                 if ex[0] in ("ok", "raises"):
@@ -484,7 +640,9 @@ def run(ctx):
                     n_refused += 1
                     ctx.hist("extract_refused", ex[1][:60])
                 reg = {"tag": tag, "region": rtxt, "stmts": region, "nm": nm, "stores": stores, "bnds": bnds,
-                       "routine": txt, "span": (path, lo, hi), "coq": mf.stmts_to_coq(region, nm), "variants": []}
+                       "routine": txt, "span": (path, lo, hi), "coq": xstmts_to_coq(region, nm), "variants": [],
+                       "arrays": sorted(bnds)}
+                ctx.hist("has_call", has_call(region))
                 for sh, res_v in variants:
                     if res_v[0] == "raises":
                         reg["variants"].append({"sh": sh, "answered": False, "ins": [], "outs": [], "fails": []})
@@ -494,7 +652,7 @@ def run(ctx):
                     _, ins, outs = res_v
                     ran, fails, seen = False, [], set()
                     for si, (vals, sb) in enumerate(stores):
-                        res = check_region(region, set(ins), set(outs), vals, sb, allvars, sh)
+                        res = check_region(expand_calls(region, sb), set(ins), set(outs), vals, sb, allvars, sh)
                         if res is None:
                             continue
                         ran = True
@@ -526,6 +684,12 @@ def run(ctx):
             break
         g = Gen12(rng, max_depth=2)
         prog = g.block({}, 0, False, rng.randint(2, 5))
+        c = rng.random()
+        if c < 0.25:
+            prog.insert(rng.randint(0, len(prog)), g.call({}))
+        elif c < 0.45:
+            k = rng.randint(0, len(prog))
+            prog[k:k] = g.call_with_partial_write()
         stores = []
         for k in range(nstores):             # array extents are part of the incoming state: vary them
             vals, b = g.store()
@@ -556,8 +720,8 @@ def run(ctx):
             vs.append("(%s, %s, %s, %s, %s)" % ("true" if v["sh"] else "false", "true" if v["answered"] else "false",
                                                 names(r, v["ins"]), names(r, v["outs"]),
                                             names(r, [c for c in culprits if c is not None])))
-        coq_cases.append("(%s, %s)" % (r["coq"], core.coq_list(vs)))
-    results = coq_eval_values(ctx, HEADER, "list stmt * list variant", "eval_case", coq_cases, shard=ctx.pick(70, 100))
+        coq_cases.append("(%s, %s, %s)" % (r["coq"], names(r, r["arrays"]), core.coq_list(vs)))
+    results = coq_eval_values(ctx, HEADER, "list xstmt * list name * list variant", "eval_case", coq_cases, shard=ctx.pick(70, 100))
     mism, n_unsafe = [], 0
     for r, res in zip(regions, results):
         for v, (agree, safe, rsafe, reasons) in zip(r["variants"], res):
@@ -618,7 +782,7 @@ def run(ctx):
         if mism:
             r, v = mism[0]
             shb = "true" if v["sh"] else "false"
-            shown = ctx.coq_eval_show(HEADER, ["(inputs %s %s, outputs_of (accs %s %s))" % (shb, r["coq"], shb, r["coq"])])
+            shown = ctx.coq_eval_show(HEADER, ["(inputs_of (xaccs %s %s), outputs_of (xaccs %s %s))" % (shb, r["coq"], shb, r["coq"])])
             first = replay_of(r, v, {"model": shown, "names": r["nm"].ids})
         ctx.violation({"property": "C12",
                        "broken": "correspondence C12.InOut.inputs/outputs = get_in_out_parameters" if mism
